@@ -75,6 +75,18 @@ impl<A: Tracker> Driver<A> {
   /// Runs one session. `bottom_up`: `Some(resources)` = create a bottom-up build, schedule those resources (in the given
   /// order) and update; then `roots` are required top-down in the same session. The session ends at the first abort.
   pub fn session(&mut self, bottom_up: Option<Vec<u32>>, roots: &[u32]) -> SessionRec {
+    self.session_inner(bottom_up, roots, false).0
+  }
+
+  /// Like `session`, but if the build aborts the panic is caught *inside* the pie session, armed crash points are
+  /// switched off, and `roots` are required again through the same, still open `Session` object (second record; its
+  /// `pre_world` is the state the aborted build left behind). The store dump is taken after the session has ended and
+  /// belongs to the second record; the first one carries none.
+  pub fn session_with_retry(&mut self, bottom_up: Option<Vec<u32>>, roots: &[u32]) -> (SessionRec, Option<SessionRec>) {
+    self.session_inner(bottom_up, roots, true)
+  }
+
+  fn session_inner(&mut self, bottom_up: Option<Vec<u32>>, roots: &[u32], retry: bool) -> (SessionRec, Option<SessionRec>) {
     self.session_no += 1;
     let pre_events = log::take(); // external changes since the last session: folded into this record's prefix
     let pre_world = self.world.clone();
@@ -83,47 +95,101 @@ impl<A: Tracker> Driver<A> {
     log::push(Ev::SessionOpen { n: self.session_no });
     cell::FAULTS.with(|f| f.borrow_mut().op_counter = 0);
     let table = self.prog.clone();
-    let mut returned: Vec<(u32, u32)> = Vec::new();
-    let mut dep_errors: Vec<String> = Vec::new();
     let kind = if bottom_up.is_some() { SessKind::BottomUp } else { SessKind::TopDown };
     let scheduled = bottom_up.clone().unwrap_or_default();
-    let pie = &mut self.pie;
-    let result = catch(|| {
+    let require_root = |session: &mut pie::Session, r: u32| -> u32 {
+      let t = Prog { id: r, table: table.clone() };
+      match table.tasks[r as usize].wrap {
+        1 => session.require(&Box::new(t)),
+        2 => session.require(&std::rc::Rc::new(t)),
+        3 => session.require(&std::sync::Arc::new(t)),
+        _ => session.require(&t),
+      }
+    };
+    // first part: (events, returned, aborted, dep_errors); second part only with `retry` after an abort
+    let mut first: Option<(Vec<Ev>, Vec<(u32, u32)>, Option<String>, Vec<String>)> = None;
+    let mut second: Option<(Vec<Ev>, Vec<(u32, u32)>, Option<String>, Vec<String>)> = None;
+    {
+      let pie = &mut self.pie;
       let mut session = pie.new_session();
-      if let Some(changed) = &bottom_up {
-        log::push(Ev::BuCreate);
-        let mut bu = session.create_bottom_up_build();
-        for r in changed {
-          log::push(Ev::BuSchedule { res: *r });
-          bu.schedule_tasks_affected_by(&Res(*r));
+      let mut returned: Vec<(u32, u32)> = Vec::new();
+      let result = catch(|| {
+        if let Some(changed) = &bottom_up {
+          log::push(Ev::BuCreate);
+          let mut bu = session.create_bottom_up_build();
+          for r in changed {
+            log::push(Ev::BuSchedule { res: *r });
+            bu.schedule_tasks_affected_by(&Res(*r));
+          }
+          log::push(Ev::BuUpdateCall);
+          bu.update_affected_tasks();
+          log::push(Ev::BuUpdateRet);
         }
-        log::push(Ev::BuUpdateCall);
-        bu.update_affected_tasks();
-        log::push(Ev::BuUpdateRet);
+        for r in roots {
+          log::push(Ev::RootCall { task: *r });
+          let out = require_root(&mut session, *r);
+          log::push(Ev::RootRet { task: *r, out });
+          returned.push((*r, out));
+        }
+      });
+      let aborted = result.err();
+      let dep_errors: Vec<String> = if aborted.is_none() { session.dependency_check_errors().map(|e| e.to_string()).collect() } else { Vec::new() };
+      if let Some(msg) = &aborted { log::push(Ev::Abort { msg: msg.clone() }); } else { log::push(Ev::DepErrors { errs: dep_errors.clone() }); }
+      let do_retry = retry && aborted.is_some() && !roots.is_empty();
+      if !do_retry { log::push(Ev::SessionClose); }
+      first = Some((log::take(), returned, aborted, dep_errors));
+      if do_retry {
+        cell::FAULTS.with(|f| { let mut f = f.borrow_mut(); f.panic_at = None; f.crash_in_user_code = false; });
+        self.session_no += 1;
+        log::push(Ev::SessionOpen { n: self.session_no });
+        let mut returned2: Vec<(u32, u32)> = Vec::new();
+        let result2 = catch(|| {
+          for r in roots {
+            log::push(Ev::RootCall { task: *r });
+            let out = require_root(&mut session, *r);
+            log::push(Ev::RootRet { task: *r, out });
+            returned2.push((*r, out));
+          }
+        });
+        let aborted2 = result2.err();
+        let dep_errors2: Vec<String> = if aborted2.is_none() { session.dependency_check_errors().map(|e| e.to_string()).collect() } else { Vec::new() };
+        if let Some(msg) = &aborted2 { log::push(Ev::Abort { msg: msg.clone() }); } else { log::push(Ev::DepErrors { errs: dep_errors2.clone() }); }
+        log::push(Ev::SessionClose);
+        second = Some((log::take(), returned2, aborted2, dep_errors2));
       }
-      for r in roots {
-        log::push(Ev::RootCall { task: *r });
-        let out = session.require(&Prog { id: *r, table: table.clone() });
-        log::push(Ev::RootRet { task: *r, out });
-        returned.push((*r, out));
-      }
-      dep_errors = session.dependency_check_errors().map(|e| e.to_string()).collect();
-    });
-    let aborted = result.err();
-    if let Some(msg) = &aborted { log::push(Ev::Abort { msg: msg.clone() }); } else { log::push(Ev::DepErrors { errs: dep_errors.clone() }); }
-    log::push(Ev::SessionClose);
-    self.sync_world();
-    let events = log::take();
+    }
+    let (events, returned, aborted, dep_errors) = first.take().unwrap();
+    // the state the first part left behind, reconstructed from the resource-side events (the cells cannot be looked at
+    // while the pie session is open)
+    let mut mid_world = pre_world.clone();
+    for e in &events { match e { Ev::WriterSet { res, val, .. } | Ev::ExtSet { res, val } => mid_world[*res as usize] = *val, _ => {} } }
     for e in &events { self.shadow.apply(e); }
+    let mid_shadow = self.shadow.clone();
+    if let Some((ev2, _, _, _)) = &second { for e in ev2 { self.shadow.apply(e); } }
+    self.sync_world();
     // the dump walks every adjacency list and edge; a store whose redundant encodings disagree makes it panic
     let pie = &self.pie;
     let dump = match catch(|| shadow::convert(&pie.verif_dump())) {
       Ok(d) => d,
       Err(msg) => { let mut d = Dump::default(); d.problems.push(format!("the store dump panicked (the store's adjacency sets and edge data disagree): {}", msg)); d }
     };
-    SessionRec {
-      no: self.session_no, kind, pre_world, post_world: self.world.clone(), events, roots: returned,
-      requested_roots: roots.to_vec(), scheduled, aborted, dep_errors, shadow_before, dump,
+    match second {
+      None => (SessionRec {
+        no: self.session_no, kind, pre_world, post_world: self.world.clone(), events, roots: returned,
+        requested_roots: roots.to_vec(), scheduled, aborted, dep_errors, shadow_before, dump,
+      }, None),
+      Some((ev2, returned2, aborted2, dep_errors2)) => {
+        let absent = Dump { absent: true, ..Dump::default() };
+        let rec1 = SessionRec {
+          no: self.session_no - 1, kind, pre_world, post_world: mid_world.clone(), events, roots: returned,
+          requested_roots: roots.to_vec(), scheduled, aborted, dep_errors, shadow_before, dump: absent,
+        };
+        let rec2 = SessionRec {
+          no: self.session_no, kind: SessKind::TopDown, pre_world: mid_world, post_world: self.world.clone(), events: ev2, roots: returned2,
+          requested_roots: roots.to_vec(), scheduled: Vec::new(), aborted: aborted2, dep_errors: dep_errors2, shadow_before: mid_shadow, dump,
+        };
+        (rec1, Some(rec2))
+      }
     }
   }
 }
